@@ -10,7 +10,7 @@ CONSTANTS
   MaxOpens = 1
   Ids = {1, 2}
   Hosts = {"h0"}
-  MaxWrites = 1
+  MaxWrites = 0
   Writers = {"A", "B"}
   Lens = {1}
   ReadMax = {4}
